@@ -1,6 +1,6 @@
 # make setup : build everything the checks need, offline, from files on disk only
-.PHONY: setup coq drivers scan clean audit
-setup: scan coq drivers
+.PHONY: shimlib setup coq drivers scan clean audit
+setup: scan coq drivers shimlib
 	@echo setup done
 coq:
 	python3 tools/extract_params.py
@@ -15,3 +15,5 @@ clean:
 # independent re-check of the compiled property files and their axioms (slow; not part of any check)
 audit:
 	cd coq && for f in Props/Properties_*.v; do m=NQ.Props.$$(basename $$f .v); echo == $$m; timeout 1200 coqchk -o -silent -Q . NQ $$m | tail -15; done
+shimlib:
+	mkdir -p build && gcc -shared -fPIC -O1 -o build/sysshim.so shim/sysshim.c -ldl
